@@ -141,9 +141,14 @@ int Exec::pick(int a) const {
 std::string Exec::resolve_name(const std::string &s) {
   if (s == "$bus") return bm::BUS;
   if (s.size() >= 3 && s[0] == '$' && s[1] == 'u') {
+    // "$uK": the unique name of client K; "$uK+tail": that name with tail appended (a near miss: ":1.1" -> ":1.10"),
+    // "$uK-": with its last character removed
     int k = pick(atoi(s.c_str() + 2));
-    if (k < 0 || w.C(k).unique.empty()) return ":0.0";
-    return w.C(k).unique;
+    std::string base = (k < 0 || w.C(k).unique.empty()) ? std::string(":0.0") : w.C(k).unique;
+    size_t plus = s.find('+');
+    if (plus != std::string::npos) return base + s.substr(plus + 1);
+    if (s.back() == '-' && base.size() > 3) return base.substr(0, base.size() - 1);
+    return base;
   }
   return s;
 }
@@ -546,6 +551,20 @@ void Exec::step(const Step &s) {
     }
     body.push_back(wire::Value::string("tok" + std::to_string(++token)));
     m.set_body(body);
+    if (s.N(12, -100) != -100 && lim_cfg.max_message_size >= 0) {
+      // n[12]: the message is padded (a last string argument) so that its size on the wire is exactly
+      // max_message_size + n[12]: the boundary itself, for every alignment of the header's end
+      long target = lim_cfg.max_message_size + s.N(12);
+      long base = (long)wire::marshal(m).size();
+      body.push_back(wire::Value::string(""));
+      m.set_body(body);
+      long with_empty = (long)wire::marshal(m).size();
+      if (target >= with_empty) {
+        body.back() = wire::Value::string(std::string((size_t)(target - with_empty), 'z'));
+        m.set_body(body);
+        if ((long)wire::marshal(m).size() == target) counters["probe:message_sized_to_the_limit_boundary"]++;
+      } else { body.pop_back(); m.set_body(body); (void)base; }
+    }
     if (s.N(7, 0)) {
       // shuffle header field order deterministically
       simk::Rng r((uint64_t)s.N(7));
@@ -1268,7 +1287,23 @@ void Exec::setup() {
       }
       extra2 = "  <servicedir>" + dir + "</servicedir>\n";
     }
-    cfg2_xml = bw::make_bus_config(p2, l2, extra2);
+    long inc = plan.C("reload.include", 0);
+    if (inc == 0) cfg2_xml = bw::make_bus_config(p2, l2, extra2);
+    else {
+      // the limits and the service directory come from an included file (<include>, or a file in an <includedir>):
+      // the parser merges a second parser into the first
+      std::string incdir = bw::scratch_dir() + "/inc.d", incfile = inc == 1 ? bw::scratch_dir() + "/inc.conf" : incdir + "/10-limits.conf";
+      std::string cmd = "rm -rf '" + incdir + "' '" + bw::scratch_dir() + "/inc.conf'";
+      if (system(cmd.c_str())) {}
+      if (inc != 1) mkdir(incdir.c_str(), 0755);
+      FILE *f = fopen(incfile.c_str(), "w");
+      if (!f) core::harness_error("cannot write an included configuration file");
+      std::string frag = bw::make_bus_config("", l2, extra2, true);
+      fwrite(frag.data(), 1, frag.size(), f);
+      fclose(f);
+      std::string ref = inc == 1 ? "  <include>" + incfile + "</include>\n" : "  <includedir>" + incdir + "</includedir>\n";
+      cfg2_xml = bw::make_bus_config(p2, bw::BusLimits(), ref);
+    }
   }
   w.start_bus(bw::make_bus_config(policy_xml, lim, extra), (int)plan.C("uniq.major", 0), (int)plan.C("uniq.minor", 0));
 }
